@@ -548,6 +548,25 @@ def check_e2e(case, acc):
                 continue
             if got.shape != (len(fr), 4) or not same(wanted(fr, k1, k2), got):
                 problems.append(("value", "value-other", f"evaluate_new_data on {what} (step {step + 1}, design built with k1={k1}): a column is not the value of its call on that frame"))
+    # arrays of the caller inside operators: used, never overwritten (also through parentheses and pass-through calls)
+    warr = np.array([0.5, 1.5, -2.0, 4.0, 3.0, 0.25])
+    w0 = warr.copy()
+    ns_arr = {"rec": rec, "warr": warr, "ident": (lambda v: v)}
+    for text, want in (("I((warr) * 2 + x)", w0 * 2 + df["x"].to_numpy()), ("I(I(warr) - 1)", w0 - 1), ("I(ident(warr) / 2 + (warr))", w0 / 2 + w0), ("rec((warr) + 1, k=(warr) * 3)", (w0 + 1) + 10.0 + 100 * (w0 * 3)),
+                       ("I(np.asarray(warr) - (x))", w0 - df["x"].to_numpy()), ("I(-(warr) + warr * 1)", -w0 + w0)):
+        for rep in range(2):
+            acc.calls += 1
+            try:
+                dmw = design_matrices(f"y ~ 0 + {text}", df, extra_namespace=ns_arr)
+                got = np.asarray(dmw.common.design_matrix, dtype=float)[:, 0]
+                got2 = np.asarray(dmw.common.evaluate_new_data(df).design_matrix, dtype=float)[:, 0]
+                if not (same(want, got) and same(want, got2)):
+                    problems.append(("value", "value-other", f"'{text}' with the caller's array warr (evaluation {rep + 1}): column is not Python's value"))
+            except Exception as ex:
+                problems.append(("value", "rejected", f"'{text}' raised {type(ex).__name__}: {ex}"))
+            if not np.array_equal(warr, w0):
+                problems.append(("value", "value-other", f"'{text}': the caller's array warr was overwritten: {warr.tolist()}"))
+                warr[:] = w0
     # more than a thousand rows: the value of a call is the value of its text on the whole columns (also when it holds a
     # transform that learns parameters from the data)
     big = pd.concat([df] * 250, ignore_index=True)
